@@ -64,9 +64,9 @@ def series_record(tid, fn, a, dt, trap, rng):
     import eqsig
     from eqsig.displacements import calc_velo_and_disp_from_accel_arr as f
     from eqsig import im
-    rec = {"tid": tid, "kind": "series", "fn": fn, "dt": enc(dt), "trap": bool(trap), "a": enc_seq(a)}
+    rec = {"tid": tid, "kind": "series", "fn": fn, "dt": enc(dt), "trap": bool(trap), "a": enc_seq(np.asarray(a, dtype=float))}
     if fn == "arr":
-        v, d = f(a.copy(), dt, trap=trap)
+        v, d = f(a.copy() if rng.random() < 0.7 else a.tolist() if trap else a.copy(), dt, trap=trap)
         rec.update(v=enc_seq(v), d=enc_seq(d), haspeaks=True,
                    pga=enc(im.calc_peak(a)), pgv=enc(im.calc_peak(v)), pgd=enc(im.calc_peak(d)))
     elif fn == "arr2":     # the alias entry point, list input
@@ -74,7 +74,19 @@ def series_record(tid, fn, a, dt, trap, rng):
         v, d = g(np.array(a), dt, trap=trap)
         rec.update(v=enc_seq(v), d=enc_seq(d), haspeaks=False)
     else:
-        o = eqsig.AccSignal(a.copy(), dt)
+        if fn == "obj_hist":
+            # history: the object held another record, whose derived quantities were read, before it got this one
+            other = np.cos(np.arange(len(a)) / 3.0) * (np.max(np.abs(a)) + 1.0)
+            o = eqsig.AccSignal(other if rng.random() < 0.5 else np.concatenate([other, other[:3]]), dt)
+            _ = (o.velocity[-1], o.pgd, o.displacement[-1], o.pgv)
+            if len(o.values) == len(a) and rng.random() < 0.5:
+                o.add_series(np.asarray(a, dtype=float) - o.values)
+            else:
+                o.reset_values(a.copy())
+            a = np.asarray(o.values, dtype=float)
+            rec["a"] = enc_seq(a)
+        else:
+            o = eqsig.AccSignal(a.copy(), dt)
         if not trap:
             o.generate_displacement_and_velocity_series(trap=False)
         ob = read_object(o, int(rng.integers(120)))      # read order varies over all permutations
@@ -105,7 +117,7 @@ def linear_record(tid, a, b, alpha, beta, dt):
 
 def build_traces(path, tier, seed):
     rng = np.random.default_rng(seed + 8)
-    nser = 36 if tier == "quick" else 200
+    nser = 56 if tier == "quick" else 280
     nlin = 12 if tier == "quick" else 60
     nmax = 1500 if tier == "quick" else 5000
     recs, meta = [], {}
@@ -116,8 +128,10 @@ def build_traces(path, tier, seed):
         if rng.random() < 0.15:
             a = np.round(a * 100)  # integer-valued floats
         dt = gen.dt(rng)
-        fn = ["arr", "obj", "arr", "obj", "arr2"][i % 5]
+        fn = ["arr", "obj", "arr", "obj_hist", "arr2", "obj", "arr"][i % 7]
         trap = (i % 3) != 2
+        if i % 4 == 1:               # integer dtype record (counts): the integrals are fractional
+            a = np.round(a / (np.max(np.abs(a)) + 1e-300) * 50).astype(np.int64)
         tid += 1
         recs.append(series_record(tid, fn, a, dt, trap, rng))
         meta[tid] = {"kind": "series", "fn": fn, "n": n, "shape": shape, "dt": dt, "trap": trap, "a_head": [float(x) for x in a[:6]]}
